@@ -66,6 +66,7 @@ func runC0809(prop, tier string) int {
 	}
 	var mu sync.Mutex
 	states, trans := 0, 0
+	readStates, reads := 0, 0
 	exhaustive := true
 	var per []interface{}
 	for _, eng := range engines {
@@ -100,8 +101,19 @@ func runC0809(prop, tier string) int {
 							label += "/in-batch-after-set"
 						}
 						t0 := time.Now()
-						res := storemc.BFS(s, u, storemc.BFSOptions{MaxDepth: depth, T0: T0, StepNs: 1e9, SkipKey: skipTableMeta, Deadline: dl, InBatchPrefix: pre}, oracles, col, label)
+						ors := append([]storemc.Oracle(nil), oracles...)
+						readStats := func() (int, int) { return 0, 0 }
+						if prop == "C08" {
+							// read side: every parameterised range/rank read, once per distinct logical state
+							var ro storemc.Oracle
+							ro, readStats = storemc.ReadOracle()
+							ors = append(ors, ro)
+						}
+						res := storemc.BFS(s, u, storemc.BFSOptions{MaxDepth: depth, T0: T0, StepNs: 1e9, SkipKey: skipTableMeta, Deadline: dl, InBatchPrefix: pre}, ors, col, label)
 						mu.Lock()
+						ls, rd := readStats()
+						readStates += ls
+						reads += rd
 						states += res.States
 						trans += res.Transitions
 						if res.DeadlineHit {
@@ -125,6 +137,10 @@ func runC0809(prop, tier string) int {
 	col.Set("traces_validated_against_impl", trans)
 	col.Set("exhaustive", exhaustive)
 	col.Set("searches", per)
+	if prop == "C08" {
+		col.Set("read_checks", map[string]interface{}{"distinct_logical_states": readStates, "reads_compared": reads, "score_bounds": storemc.ScoreBounds(), "lex_bounds": storemc.LexBounds(), "index_bounds": storemc.IdxBounds()})
+		fmt.Printf("[C08] read side: %d reads compared with the reference in %d distinct logical states\n", reads, readStates)
+	}
 	col.Set("rule", "BFS over physical store states (full engine dump minus per-table key counters) of tiny per-type universes; every command instance of the alphabet is a transition applied through StateMachine.ApplyRaftRequest on the real store; oracle evaluated through the real read handlers after every transition; violating states are not expanded")
 	for _, u := range storemc.AllUniverses() {
 		col.Sample(map[string]interface{}{"universe": u.Name, "commands": u.Cmds})
